@@ -39,7 +39,7 @@ def run_algo_property(pid, prop_file, tier, seed, want, level="proof"):
     sdir = vlib.scratch(pid)
     try:
         common.proof_part(rep, prop_file)
-        binary, err = vlib.build_harness("h_algo")
+        binary, err = vlib.build_harness("h_algo_exec", sources=["h_algo.cpp"], defines=["FAMILY_EXEC"])
         if not binary:
             rep.violation(dict(kind="build", clause="h_algo", has_input=True), "harness h_algo does not compile: " + err[-600:], dict(stderr=err))
             return rep.finish()
